@@ -146,7 +146,7 @@ def build(D):
     m.times = np.arange(n, dtype=float) * 3600 + 1325376000
     m.leadtimes = np.array([0.0])
     m.locations = [verif.location.Location(0, 0, 0, 0)]
-    m.variable = verif.variable.Variable("T", "C")
+    m.variable = verif.variable.Variable("T", "C", x0=D.get("x0"), x1=D.get("x1"))
     m.obs = np.array(D["obs"], float).reshape(n, 1, 1)
     m.fcst = None if D.get("fcst") is None else np.array(D["fcst"], float).reshape(n, 1, 1)
     m.pit = None if D.get("pit") is None else np.array(D["pit"], float).reshape(n, 1, 1)
@@ -1173,3 +1173,110 @@ def shrink(op):
         for i in range(len(p)):
             if len(p) > 1 and len(o) == len(p):
                 yield "prob %s %s %s" % (a[1], xvec(p[:i] + p[i + 1:]), xvec(o[:i] + o[i + 1:]))
+
+
+# ------------------------------------------------------------------ PIT values at a discrete mass (# x0: / # x1:)
+# Data._get_score hands the Pit field through verif.field.Pit.randomize when the variable declares a discrete mass:
+# "if the obs is 0 mm and the CDF at 0 mm is 0.3, then a random number between 0 and 0.3 must be used" (and the same
+# from above at x1). Model: Model/PitMass.lean with the drawn numbers as parameters; theorems Proofs/C08PitMass.lean.
+# The numbers the tool draws are reproduced here (np.random.RandomState(1), one rand(shape) per declared mass, since
+# repair dc3c38f) only for the model comparison; the oracle below does not know them. (Seeded change C08f: with both
+# masses declared the x1 branch restarted from the stored value, so a case on the lower mass kept its stored PIT.)
+TARGETS = TARGETS + ["Proofs.C08PitMass"]
+THEOREMS["Proofs.C08PitMass"] = ["VerifModel.C08." + t for t in [
+    "C08_pitmass_off", "C08_pitmass_lower", "C08_pitmass_upper", "C08_pitmass_spec", "C08_pitmass_length"]]
+
+
+def _pitmass_ops(tier, rng):
+    for k in range(60 if tier == "quick" else 1200):
+        n = rng.choice([1, 2, 4, 8, 16])
+        x0, x1 = [(0.0, None), (None, 100.0), (0.0, 100.0), (0.0, 100.0), (2.5, 2.5)][k % 5]
+        vals = [v for v in (x0, x1) if v is not None] + [1.5, 50.0, 99.5]
+        obs = [rng.choice(vals) for _ in range(n)]
+        pit = [rng.choice([0.0, 0.125, 0.25, 0.5, 0.75, 1.0]) for _ in range(n)]
+        g = np.random.RandomState(1)
+        u0 = g.rand(n, 1, 1).flatten() if x0 is not None else np.zeros(n)
+        u1 = g.rand(n, 1, 1).flatten() if x1 is not None else np.zeros(n)
+        yield "prob.pitmass", "pitmass %s %s %s %s %s %s" % (
+            "-" if x0 is None else xr(x0), "-" if x1 is None else xr(x1), xvec(obs), xvec(pit), xvec(u0), xvec(u1))
+
+
+def _pitmass_impl(a):
+    import verif.field
+    import verif.variable
+    x0 = None if a[1] == "-" else from_xr(a[1])
+    x1 = None if a[2] == "-" else from_xr(a[2])
+    D = {"obs": from_xvec(a[3]), "pit": from_xvec(a[4]), "x0": x0, "x1": x1}
+    data = build(D)
+    first = np.array(data.get_scores(verif.field.Pit(), 0), float).flatten()
+    again = np.array(build_again(D, x0, x1).get_scores(verif.field.Pit(), 0), float).flatten()
+    if not np.array_equal(first, again, equal_nan=True):
+        return "NONDETERMINISTIC " + xvec(first) + " " + xvec(again)
+    return xvec(first)
+
+
+def build_again(D, x0, x1):
+    return build(D)
+
+
+def _pitmass_judge(a, impl_out):
+    if impl_out.startswith("NONDETERMINISTIC"):
+        return ({"kind": "pitmass", "part": "repeat"}, "the same dataset gives different PIT values when built twice: " + impl_out[:200])
+    if impl_out.startswith("E"):
+        return ({"kind": "pitmass", "part": "exception"}, impl_out)
+    x0 = None if a[1] == "-" else from_xr(a[1])
+    x1 = None if a[2] == "-" else from_xr(a[2])
+    got = from_xvec(impl_out)
+    for o, p, r in zip(from_xvec(a[3]), from_xvec(a[4]), got):
+        low, up = (x0 is not None and o == x0), (x1 is not None and o == x1)
+        if not low and not up:
+            ok, want = r == p, "the stored value %r" % p
+        elif low and not up:
+            ok, want = (0 <= r <= p) and (p == 0 or r < p), "a random number in [0, %r)" % p
+        elif up and not low:
+            ok, want = (p <= r <= 1) and (p == 1 or r > p), "a random number in (%r, 1]" % p
+        else:
+            ok, want = 0 <= r <= 1, "a number in [0, 1]"
+        if not ok:
+            return ({"kind": "pitmass", "part": "lower" if low else "upper" if up else "off"},
+                    "obs %r, stored PIT %r, masses x0=%r x1=%r: the Pit field is %r, documented: %s" % (o, p, x0, x1, r, want))
+    return None
+
+
+_gen_ops_c08, _impl_c08, _judge_c08, _cmp_c08, _nontrivial_c08 = gen_ops, _impl, judge, cmp, nontrivial
+
+
+def gen_ops(tier, rng):
+    for s in _gen_ops_c08(tier, rng):
+        yield s
+    for s in _pitmass_ops(tier, rng):
+        yield s
+
+
+def _impl(op):
+    if op.startswith("pitmass "):
+        import warnings as _w
+        with _w.catch_warnings(), np.errstate(all="ignore"):
+            _w.simplefilter("ignore")
+            return _pitmass_impl(op.split(" "))
+    return _impl_c08(op)
+
+
+def judge(op, impl_out, spec_out):
+    if op.startswith("pitmass "):
+        v = common.mutated_verdict(op, impl_out)
+        return v if v else _pitmass_judge(op.split(" "), impl_out)
+    return _judge_c08(op, impl_out, spec_out)
+
+
+def cmp(op, impl_out, model_out):
+    if op.startswith("pitmass "):
+        return common.tokens_close(impl_out, model_out, 1e-12, 1e-15)
+    return _cmp_c08(op, impl_out, model_out)
+
+
+def nontrivial(op, out):
+    if op.startswith("pitmass "):
+        a = op.split(" ")
+        return any(t in (a[1], a[2]) for t in a[3].split(","))
+    return _nontrivial_c08(op, out)
